@@ -8,6 +8,10 @@ SEED_RUN = 4321        # global RNG at the start of every op sequence
 SEED_PROBE = 99        # RNG of every probe forward (on a deep copy)
 OBSERVERS = ('export', 'export_nobn', 'summary', 'cost', 'get_cost:a', 'get_cost:b')
 KINDS = ('bn', 'drop', 'sampler', 'other')
+# update_softmax_options presets (non-observer ops 'opts:<name>'); SuperNet offers temperature and hard only
+OPTS = {'frozen': dict(disable_sampling=True), 'unfrozen': dict(disable_sampling=False), 'hard': dict(hard=True), 'soft': dict(hard=False),
+        'gumbel_on': dict(gumbel=True), 'gumbel_off': dict(gumbel=False), 'temp': dict(temperature=0.5), 'temp1': dict(temperature=1.0)}
+OPTS_FOR = {'PIT': (), 'MPS': tuple(OPTS), 'SuperNet': ('hard', 'soft', 'temp', 'temp1')}
 SPECS = ('single_a', 'single_b', 'dict')
 _T = {}
 
@@ -162,6 +166,19 @@ def thetas(m):
     return out
 
 
+def sampling(m):
+    """sampling options of every sampler: flag values, temperature and the sampler function actually bound"""
+    out = []
+    for n, mod in m.named_modules():
+        if hasattr(mod, 'theta_alpha') and hasattr(mod, 'alpha'):
+            t = getattr(mod, 'temperature', None)
+            t = float(t) if t is not None else float(getattr(mod, '_softmax_temperature', getattr(mod, 'softmax_temperature', 0)))
+            fn = getattr(mod, 'sample_alpha', None)
+            out.append((n, bool(getattr(mod, 'hard_softmax', False)), getattr(mod, 'gumbel_softmax', None), getattr(mod, 'disable_sampling', None), t,
+                        getattr(fn, '__name__', repr(fn))))
+    return out
+
+
 def flags(m, cfg):
     fl = [(n, mod.training) for n, mod in m.named_modules()]
     sub = {id(mod) for mod in sub_modules(m, cfg)}
@@ -228,6 +245,7 @@ def fingerprint(m, x, deep=True, cfg=None):
         'theta': hj(thetas(m)),
         'rng': rng_hash(),
         'reqgrad': hj([(k, p.requires_grad) for k, p in m.named_parameters()]),
+        'sampling': hj(sampling(m)),
     }
     fp['polluted'] = polluted(m)
     if deep:
@@ -269,6 +287,9 @@ def apply_op(m, x, op, method):
             return float(m.get_cost(op.split(':')[1])).hex()
         if op.startswith('set_spec:'):
             m.cost_specification = specs_for(method)[op.split(':')[1]]
+            return 'ok'
+        if op.startswith('opts:'):
+            m.update_softmax_options(**OPTS[op.split(':')[1]])
             return 'ok'
         if op == 'flip_sub':
             for mod in sub_modules(m, CUR['cfg']):
